@@ -40,7 +40,7 @@ pub uninterp spec fn key_hash(key: Seq<u8>) -> u64;
 @type src/filedb/inner/key.rs | KeyFile
 @type src/filedb/inner/key.rs | KeyPiece
 
-@raw
+@raw root
 verus! {
 pub open spec fn sig_k() -> Seq<u8> { seq![97u8, 98, 121, 115, 100, 98, 75, 0] }
 /// documented key-file header (key.rs:178-204): signature1, type signature, 176 zero bytes
